@@ -4,6 +4,7 @@ import DaskModel.Model.BagReduce
 import DaskModel.Model.BagSample
 import DaskModel.Model.BagOps
 import DaskModel.Model.BagShuffle
+import DaskModel.Model.BagLazify
 open Dask
 
 namespace BagDriver
@@ -550,6 +551,64 @@ def tableC48b : List (String × Handler) := [("groupbydiskblocks", hGroupbyDiskB
 
 end BagDriver
 
-def table : List (String × Handler) := BagDriver.tableC50 ++ BagDriver.tableC49 ++ BagDriver.tableC48 ++ BagDriver.tableC48b
+namespace BagDriver
+open Dask.BagLazify
+
+/-! ### bag `lazify_task` on task-spec terms -/
+
+def headOf? : String → Option Head
+  | "reify" => some .reify | "ident" => some .ident | "lazy" => some .lazy | "other" => some .other | _ => none
+def headName : Head → String
+  | .reify => "reify" | .ident => "ident" | .lazy => "lazy" | .other => "other"
+
+mutual
+partial def toNode? : SExp → Option Node
+  | .list [.sym "ref", k] => do pure (.ref (← k.toNat?))
+  | .list [.sym "data"] => some .data
+  | .list [.sym "alias", k] => do pure (.alias (← k.toNat?))
+  | .list (.sym "lst" :: args) => do pure (.lst (← args.mapM toNode?))
+  | .list (.sym "call" :: .sym h :: args) => do pure (.call (← headOf? h) (← args.mapM toNode?))
+  | .list (.sym "sub" :: out :: deps :: inner) => do
+    pure (.sub (← inner.mapM toEntry?) (← out.toNat?) (← deps.toNats?))
+  | _ => none
+partial def toEntry? : SExp → Option (Nat × Node)
+  | .list [k, n] => do pure (← k.toNat?, ← toNode? n)
+  | _ => none
+end
+
+partial def ofNode : Node → SExp
+  | .ref k => .list [.sym "ref", SExp.ofNat k]
+  | .data => .list [.sym "data"]
+  | .alias k => .list [.sym "alias", SExp.ofNat k]
+  | .lst args => .list (.sym "lst" :: args.map ofNode)
+  | .call h args => .list (.sym "call" :: .sym (headName h) :: args.map ofNode)
+  | .sub inner out deps =>
+    .list (.sym "sub" :: SExp.ofNat out :: SExp.ofNats deps :: inner.map fun kv => .list [SExp.ofNat kv.1, ofNode kv.2])
+
+/-- `(lazify start node)` ↦ the lazified node (repaired code) -/
+def hLazify : Handler := handler fun args =>
+  match args with
+  | [start, n] => do pure (ofNode (lazify Cfg.fixed (← start.toBool?) (← toNode? n)))
+  | _ => none
+
+/-- `(lazifykeep out (k node)…)` ↦ the inner keys that keep their list (sorted by the harness) -/
+def hLazifyKeep : Handler := handler fun args =>
+  match args with
+  | out :: inner => do
+    let inner ← inner.mapM toEntry?
+    pure (SExp.ofNats (keepSet Cfg.fixed inner (← out.toNat?)))
+  | _ => none
+
+/-- `(lazifyrefs k node)` ↦ `_count_references` of key `k` -/
+def hLazifyRefs : Handler := handler fun args =>
+  match args with
+  | [k, n] => do pure (SExp.ofNat (refsNode (← k.toNat?) (← toNode? n)))
+  | _ => none
+
+def tableLazify : List (String × Handler) := [("lazify", hLazify), ("lazifykeep", hLazifyKeep), ("lazifyrefs", hLazifyRefs)]
+
+end BagDriver
+
+def table : List (String × Handler) := BagDriver.tableC50 ++ BagDriver.tableC49 ++ BagDriver.tableC48 ++ BagDriver.tableC48b ++ BagDriver.tableLazify
 
 def main : IO Unit := runDriver table
